@@ -263,6 +263,8 @@ func fix(args []string, params *fixCommandParams) error {
 		l = l.WithUserConfig(userConfig)
 	case params.configFile != "":
 		return fmt.Errorf("user-provided config file not found: %w", err)
+	case errors.Is(err, config.ErrConflictingConfigFiles):
+		return fmt.Errorf("failed to find user config: %w", err)
 	case params.debug:
 		log.Println("no user-provided config file found, will use the default config")
 	}
